@@ -318,7 +318,9 @@ fn main() {
             let seed = args.get(3).and_then(|s| s.parse().ok()).unwrap_or(0);
             let idx = args.get(4).and_then(|s| s.parse().ok()).unwrap_or(0);
             let thorough = args.get(5).map(|s| s == "thorough").unwrap_or(false);
-            println!("{}", runner::write_seed_replay(&id, seed, idx, thorough, "abort", "the process aborted while executing this run (stack overflow or failed allocation inside the library)"));
+            // optional: runs to execute first, in the same process ("a,b,c")
+            let prefix: Vec<u64> = args.get(6).map(|s| s.split(',').filter_map(|x| x.parse().ok()).collect()).unwrap_or_default();
+            println!("{}", runner::write_history_replay(&id, seed, idx, &prefix, thorough, "abort", "the process aborted while executing this run (stack overflow or failed allocation inside the library)"));
             0
         }
         Some("replay") => cmd_replay(&args[2..]),
